@@ -397,6 +397,19 @@ func runC05(res *Result, d *Driver, tier string, seed uint64) {
 		os.WriteFile(filepath.Join(sc.dir, "rwfile"), []byte("content-of-rwfile"), 0666)
 	}
 	c05Propagation(res, sc)
+	// a mask that cannot be applied (its parent is a file): the container must not come up half built (root still writable)
+	{
+		b := mount.NewBuilder().WithTmpfs("w", "size=1m").WithBind("/dev/null", "dev/null", false)
+		env, err := newEnv(container.Builder{Mounts: b.Mounts, WorkDir: "/", MaskPaths: []string{"/dev/null/x"}})
+		res.Case("unappliable mask", true, "mask-failure")
+		if err == nil {
+			r, out := env.runProbe(RunSpec{Script: "touch /probe_root; mkdir /newdir; exit 0"}, false)
+			env.Close()
+			if r.Status == runner.StatusNormal && (strings.Contains(out, "touch /probe_root = 0") || strings.Contains(out, "mkdir /newdir = 0")) {
+				res.Mismatch(Mismatch{Kind: "oracle", What: "a container whose mask could not be applied was built anyway and its root accepts writes (C05_gen_container_failure_is_reported / C05_namespace: root read-only)", Input: "container {tmpfs w, dev/null} MaskPaths=[/dev/null/x]", Impl: strings.ReplaceAll(strings.TrimSpace(out), "\n", " | "), Model: "Build fails, or the root is read-only", Oracle: "violates"})
+			}
+		}
+	}
 	c05Findings(res, sc)
 	res.Sample("raw [bind rodir->ro (ro), tmpfs w, bind rofile->ro/nested (ro,file)] : mountinfo = / tmpfs ro; /ro host ro; /w tmpfs rw; /ro/nested host ro ; touch /w/probe_new ok, touch /ro/probe_new EROFS, touch /probe_root EROFS; ls / = ro w")
 }
